@@ -43,6 +43,13 @@ def r1(c):
         gm = GuardMap(fn)
         apps = [x for x in calls_in(fn) if isinstance(x.func, ast.Attribute) and x.func.attr == "append" and x.args and isinstance(x.args[0], ast.Call)
                 and call_name(x.args[0]).startswith("Matched")]
+        if len(apps) == 1 and any(isinstance(l_, ast.For) for l_ in gm.in_loop(apps[0])):
+            # the two orientations may be rows of a small table the innermost loop walks: spell the iterations out
+            from sa.canon import unroll_literal_loops
+            fn = unroll_literal_loops(fn, names_ok=True)
+            gm = GuardMap(fn)
+            apps = [x for x in calls_in(fn) if isinstance(x.func, ast.Attribute) and x.func.attr == "append" and x.args and isinstance(x.args[0], ast.Call)
+                    and call_name(x.args[0]).startswith("Matched")]
         if len(apps) != 2:
             c.violated("C15.R1", repo.loc(m, fn), f"{fname}/two-orientations", f"{len(apps)} Matched…Pair constructions (expected 2: one per orientation)", key_text="count")
             continue
@@ -405,7 +412,7 @@ def r7(c):
     for q, fn0 in m.defs.items():
         if not isinstance(fn0, ast.FunctionDef):
             continue
-        fn = repo.func(EXE, q)
+        fn = repo.func(EXE, q, canon=False)
         accs = []
         for call in calls_in(fn):
             if call_name(call) != "merge":
@@ -422,6 +429,35 @@ def r7(c):
         for call, sub in accs:
             ACC = sub.value.id
             if ACC in params:
+                # the accumulate step lives in a helper that is handed the accumulator and the key: decide at every call site of the helper
+                plist = [x.arg for x in fn.args.args]
+                if not (isinstance(sub.slice, ast.Name) and sub.slice.id in plist):
+                    continue
+                ia, ik = plist.index(ACC), plist.index(sub.slice.id)
+                off = 1 if plist and plist[0] in ("self", "cls") else 0
+                for q2, fn2_0 in m.defs.items():
+                    if not isinstance(fn2_0, ast.FunctionDef) or fn2_0 is fn0:
+                        continue
+                    fn2 = repo.func(EXE, q2, canon=False)
+                    rd2 = gm2 = None
+                    for x in calls_in(fn2):
+                        r_ = repo.resolve_call(m, x)
+                        if not (r_ and r_[2] is fn0):
+                            continue
+                        if len(x.args) <= max(ia, ik) - off:
+                            continue
+                        a_acc, a_key = x.args[ia - off], x.args[ik - off]
+                        if not isinstance(a_acc, ast.Name):
+                            continue
+                        rd2 = rd2 or ReachingDefs(fn2)
+                        gm2 = gm2 or GuardMap(fn2)
+                        sites += 1
+                        deps = _dep_names(fn2, rd2, gm2, a_key)
+                        if a_acc.id in deps:
+                            c.violated("C15.R7", repo.loc(m, x), f"{q2}/merge-key:{a_acc.id}", f"the key `{norm(a_key)}` under which a handler's result is merged into `{a_acc.id}` (through {q}) depends on "
+                                       f"`{a_acc.id}` itself: which stored session a result joins depends on the order the handlers ran in", key_text=f"key-depends-on-acc:{a_acc.id}")
+                        else:
+                            c.holds("C15.R7", repo.loc(m, x), f"{q2}/merge-key:{a_acc.id}", f"key `{norm(a_key)}` (merged through {q}) depends on {sorted(deps)[:8]} only")
                 continue
             sites += 1
             # conditions that only ask whether the key is already present are the accumulate idiom itself
